@@ -247,7 +247,7 @@ def run_groupby(ctx, prop):
     randoms = gb_random_scripts(rng, 1500 if thorough else 250, 40 if thorough else 25, late=(prop != "C18"), c18=(prop == "C18"))
     tags = [prop]
     events = run_ops(ctx, prop, "OpMC_gb", GB_BODY, "GbCfgsC18" if prop == "C18" else "GbCfgs", "GbUniverse", 4 if thorough else 3, randoms, sig_gb, tags,
-                     sample=0 if thorough else 6000)
+                     sample=0 if thorough else 3000)
     run_negative_control(ctx, prop)
     ctx.coverage["exhaustive"] = True
     ctx.assumptions += ["valid, non-late input changelogs (OkAppend in Ops.tla; DESIGN.md section 5)",
@@ -325,7 +325,7 @@ def run_ext(ctx, prop):
         # the consolidated result of these runs is judged on its own as well (the recorded finding above is a transient retraction, the end result is right)
         replay_validate(ctx, directed, ["C15F"], sig_ext, "lookup_final")
     # MaxLen stays 3 in both tiers (38 messages x 9 configurations: length 4 is 18 M scripts); thorough replays every exported script and more random ones
-    run_ops(ctx, prop, "OpMC_ext", EXT_BODY, "ExtCfgs", "ExtUniverse", 3, randoms, sig_ext, [prop], sample=0 if thorough else 6000)
+    run_ops(ctx, prop, "OpMC_ext", EXT_BODY, "ExtCfgs", "ExtUniverse", 3, randoms, sig_ext, [prop], sample=0 if thorough else 2500)
 
 
 PIPE_BODY = r'''
@@ -383,7 +383,7 @@ def run_pipes(ctx, prop):
     rng = random.Random(ctx.seed * 6007 + 13)
     late = prop != "C18"
     randoms = pipe_random_scripts(rng, 2500 if thorough else 300, 50 if thorough else 25, late)
-    run_ops(ctx, prop, "OpMC_pipe", PIPE_BODY, "PipeCfgsC18" if prop == "C18" else "PipeCfgs", "PipeUniverse", 3, randoms, sig_pipe, [prop], sample=0 if thorough else 5000)
+    run_ops(ctx, prop, "OpMC_pipe", PIPE_BODY, "PipeCfgsC18" if prop == "C18" else "PipeCfgs", "PipeUniverse", 3, randoms, sig_pipe, [prop], sample=0 if thorough else 2500)
 
 
 def sig_ext(f):
@@ -405,4 +405,4 @@ def run_basic(ctx, prop):
     late = prop != "C18"
     randoms = basic_random_scripts(rng, 1500 if thorough else 250, 60 if thorough else 30, late)
     run_ops(ctx, prop, "OpMC_basic", BASIC_BODY, "BasicCfgs", "BasicUniverse", 4 if thorough else 3, randoms, sig_basic, [prop],
-            sample=0 if thorough else 5000)
+            sample=0 if thorough else 2500)
